@@ -329,9 +329,17 @@ def run_niter(cfg):
             e.add_definition(v.t >= 0)
             return None, v
 
-        stubs = dict(row_norms=lambda *a, **kw: None, _constraint_association=lambda *a, **kw: None, _centers_dense=lambda X, sw, labels, nc, dc: numpy.zeros((k, 1)), _labels_inertia_skl=inertia_stub)
+        quotas = []
+
+        def assoc(leftover, counters, labels, leftclose, dclose, centers, Xa, xsn, limit, strategy, state=None):
+            quotas.append((int(leftover), int(limit), len(counters), len(leftclose)))
+
+        stubs = dict(row_norms=lambda *a, **kw: None, _constraint_association=assoc, _centers_dense=lambda X, sw, labels, nc, dc: numpy.zeros((k, 1)), _labels_inertia_skl=inertia_stub)
         with harness.patched(kc.KMeans, fit=parent_fit), harness.patched(m, **stubs):
             est.fit(X)
+        # every association of the fit gets the quota of THIS data and k (initial labels -- here all zero, as a
+        # KMeans start that left clusters empty, or a random start that missed an index -- must not enter it)
+        e.prove(len(quotas) >= 1 and all(q == (n - (n // k) * k, n // k, k, k) for q in quotas), "fit/quota=n//k,leftover=n-k*quota-for-every-association", detail=quotas[:3])
         e.prove(est.max_iter == mi, "n_iter/max_iter-restored")
         e.prove(est.n_iter_ <= mi, "n_iter_<=max_iter", detail=str(est.n_iter_))
         e.prove(est.n_iter_ >= 0, "n_iter_>=0")
@@ -348,6 +356,24 @@ def run_niter(cfg):
 def replay_niter(cfg, inputs, label):
     kc = loader.load("mlmodel.kmeans_constraint")
     tried = 0
+    if label.startswith("fit/quota"):
+        # starts that leave the last cluster index unused: tiny random starts, or fewer distinct points than clusters
+        for k in (3, 4):
+            for seed in range(40):
+                rng = numpy.random.RandomState(seed)
+                for X, kmeans0 in ((rng.randn(2 * k, 2), False), (numpy.repeat(rng.randn(2, 2), [5, 3 * k - 5], axis=0), True)):
+                    tried += 1
+                    try:
+                        import warnings
+
+                        with warnings.catch_warnings():
+                            warnings.simplefilter("ignore")
+                            est = kc.ConstraintKMeans(n_clusters=k, strategy="distance", kmeans0=kmeans0, random_state=seed).fit(X)
+                    except Exception as ex:
+                        return True, dict(n=len(X), k=k, seed=seed, kmeans0=kmeans0, raised=f"{type(ex).__name__}: {str(ex)[:160]}")
+                    if not _sizes_ok(est.labels_, len(X), k):
+                        return True, dict(n=len(X), k=k, strategy="distance", kmeans0=kmeans0, seed=seed, sizes=numpy.bincount(est.labels_, minlength=k).tolist(), data="RandomState(seed).randn(2k,2)" if not kmeans0 else "two distinct points repeated")
+        return False, f"sizes balanced on {tried} real fits whose start leaves a cluster index unused"
     for mi in sorted(set([int(inputs.get("max_iter", 4))] + list(range(1, 13)))):
         for seed in range(6):
             rng = numpy.random.RandomState(seed)
